@@ -21,10 +21,19 @@ fn hex(s: &str) -> String {
         return "-".to_string();
     }
     let mut o = String::new();
+    // the property also says "all results are valid UTF-8": the built-ins assemble their results with
+    // unchecked constructors, so re-validate the bytes here and mark a malformed result
+    if std::str::from_utf8(s.as_bytes()).is_err() {
+        o.push_str("INVALID-UTF8:");
+    }
     for b in s.as_bytes() {
         let _ = write!(o, "{b:02x}");
     }
     o
+}
+
+fn bits(x: f64) -> String {
+    if x.is_nan() { "7ff8000000000000".to_string() } else { format!("{:016x}", x.to_bits()) }
 }
 
 fn one(arena: &Arena, t: &[&str]) -> String {
@@ -73,6 +82,38 @@ fn one(arena: &Arena, t: &[&str]) -> String {
                     if StringBuiltin::trim(&s, arena).len() == 1 {
                         let _ = write!(o, " {cp}");
                     }
+                }
+            }
+            o
+        }
+        // to_number: the bit pattern of the result, every NaN printed as the canonical one
+        "tonum" => format!("num {}", bits(StringBuiltin::to_number(&unhex(t[1])))),
+        // Display of a number (what string interpolation / shout print), then to_number of that text
+        "roundtrip" => {
+            let x = f64::from_bits(u64::from_str_radix(t[1], 16).unwrap());
+            let text = format!("{}", Value::Number(x));
+            format!("txt {} num {}", hex(&text), bits(StringBuiltin::to_number(&text)))
+        }
+        "upper" => format!("str {}", hex(&StringBuiltin::to_uppercase(&unhex(t[1]), arena))),
+        "lower" => format!("str {}", hex(&StringBuiltin::to_lowercase(&unhex(t[1]), arena))),
+        "casemap" => {
+            // every scalar value in [lo, hi) whose upper- or lower-casing by the built-ins is not the identity
+            let (lo, hi): (u32, u32) = (t[1].parse().unwrap(), t[2].parse().unwrap());
+            let mut o = String::from("cm");
+            let mut buf = [0u8; 4];
+            for cp in lo..hi {
+                if let Some(c) = char::from_u32(cp) {
+                    let s: &str = c.encode_utf8(&mut buf);
+                    let mark = arena.offset();
+                    {
+                        let u = StringBuiltin::to_uppercase(s, arena);
+                        let l = StringBuiltin::to_lowercase(s, arena);
+                        if u.as_str() != s || l.as_str() != s {
+                            let seq = |r: &str| r.chars().map(|c| format!("{:x}", c as u32)).collect::<Vec<_>>().join(".");
+                            let _ = write!(o, " {cp:x}:{}:{}", seq(&u), seq(&l));
+                        }
+                    }
+                    unsafe { arena.reset(mark) };
                 }
             }
             o
